@@ -418,6 +418,25 @@ PROPS = {
              "bound": "the generated text constant of VSpec", "timeout": 200, "must_cover": ["c19_text_constant_end"]},
         ],
     },
+    "C04": {
+        "files": ["a2lfile/src/specification.rs", "a2lfile/src/parser.rs"],
+        "grammar_deviations": True,
+        "trusted": T_STD + ["/verif/reference/a2l_grammar_dsl.txt: frozen copy of the specification DSL (body of a2l_specification! in specification_orig.rs at the pinned commit) as the reference grammar",
+                            "/verif/vf/dslgen.py: instance and deviation generator over that DSL"],
+        "assumptions": ["one document per (parent, element) pair of the reference grammar (273 pairs covering 203 of 205 elements) in its specified form (at version 1.71 and exactly at the lower version bound of every gated element / enum value: 365), and one per single deviation: last parameter missing (208), optional element twice (198), wrong block form (273), unknown enum value (59), element newer than the declared version (39), enum value newer than the declared version (61), deprecated element (2), required element missing (1): 1206 documents, each loaded strict and non-strict",
+                        "values are one representative per parameter type (the symbolic value space of parameters is C02's subject); the deviation is at the last parameter / the first enum parameter; elements with an open-ended identifier list accept any error class for structural deviations (the list swallows what follows)",
+                        "A2ML and IF_DATA content are outside (C18/C19)"],
+        "jobs": [
+            {"engine": "E2", "module": "lib", "harness": "h_grammar_%d" % c, "functions": ["load_from_string", "specification::*::parse of every element of the reference grammar", "parser::ParserState::{require_block,require_keyword,handle_multiplicity_error,check_block_version_lower,check_block_version_upper,check_enumitem_version_lower,get_integer,get_string,get_identifier,get_double}", "A2lFile::write_to_string"],
+             "bound": "documents k = %d (mod 4) of the 1206 generated documents, strict and non-strict" % c, "timeout": 900, "extra_modules": ["tokenizer"], "max_steps": 6000000, "validate": 40,
+             "must_cover": ["deviation documents are in place"]}
+            for c in (0, 1, 2, 3)
+        ] + [
+            {"engine": "E2", "module": "lib", "harness": "h_grammar_versions", "functions": ["parser::ParserState::check_block_version_lower", "parser::ParserState::check_block_version_upper", "parser::ParserState::check_enumitem_version_lower", "parser::A2lVersion::new", "parser::ParserState::parse_version", "specification::*::parse of every version-gated element"],
+             "bound": "101 version-gated (parent, element) / enum-value documents x the file version as solver variable over {1.50, 1.51, 1.60, 1.61, 1.70, 1.71} (two symbolic digits)", "timeout": 900, "extra_modules": ["tokenizer"], "max_steps": 6000000, "validate": 40,
+             "must_cover": ["version-open documents are in place"]},
+        ],
+    },
     "C20": {
         "driver": "c20",
         "files": ["a2lfile/src/specification.rs", "a2lfile/src/specification_orig.rs", "a2lmacros/src/lib.rs", "a2lmacros/src/a2lspec.rs", "a2lmacros/src/codegenerator.rs",
